@@ -32,6 +32,12 @@ func symFragBundle(n int, variant int) Bundle {
 		pb.Destination, pb.SourceNode, pb.ReportTo = symEID("", 1, false), symEID("", 4, false), DtnNone()
 		cbs = append(cbs, CanonicalBlock{BlockNumber: 2, Value: NewPreviousNodeBlock(symEID("", 5, false))})
 		cbs = append(cbs, CanonicalBlock{BlockNumber: 3, BlockControlFlags: ReplicateBlock | RemoveBlock, CRCType: CRC16, Value: NewGenericExtensionBlock(verif.Bytes("gd", 2), 77)})
+	case 4: // CRC-32 on every block (no slack in the size estimate), a large extension block that is not replicated
+		pb.CRCType = CRC32
+		pcrc = CRC32
+		pb.Destination, pb.SourceNode, pb.ReportTo = symEID("", 1, false), symEID("", 1, false), symEID("", 1, false)
+		cbs = append(cbs, CanonicalBlock{BlockNumber: 2, CRCType: CRC32, Value: NewGenericExtensionBlock(make([]byte, 70), 200)})
+		cbs = append(cbs, CanonicalBlock{BlockNumber: 3, BlockControlFlags: ReplicateBlock, CRCType: CRC32, Value: &HopCountBlock{Limit: 9, Count: 1}})
 	case 3: // must not fragment
 		pb.CRCType = CRC32
 		pb.Destination, pb.SourceNode, pb.ReportTo = symEID("", 4, false), symEID("", 1, false), symEID("", 1, false)
@@ -97,7 +103,7 @@ var fragSizes = []int{0, 1, 2, 9, 16, 24, 40, 70}
 
 // H09_Fragment: every (payload size, limit) pair in the bound is its own symbolic path (contents stay symbolic).
 func H09_Fragment() {
-	variant := verif.Choose("variant", 4)
+	variant := verif.Choose("variant", 5)
 	n := fragSizes[verif.Choose("nidx", verif.Param("nsizes", 6))]
 	b := symFragBundle(n, variant)
 	verif.Assume(b.CheckValid() == nil)
@@ -131,5 +137,40 @@ func H09_Fragment() {
 		verif.Assert(rerr == nil, "reassembling all fragments succeeds")
 		verif.Assert(bytes.Equal(serialised(r), orig), "reassembled bundle serialises byte-identically to the original")
 	}
+	verif.Reach("end")
+}
+
+// H09_HeaderWidth: limits at which the CBOR header of the payload byte string changes width (255/256): a 600-byte
+// payload, CRC-32 on every block (so the size estimate has no slack), a 150-byte extension block that is not
+// replicated and a small replicated one; the limit sweeps the window in which later fragments carry >= 256 bytes
+// while the first one carries fewer. The sweep is split into shards (one worker each).
+func H09_HeaderWidth() {
+	pb := PrimaryBlock{Version: dtnVersion, CRCType: CRC32, CreationTimestamp: NewCreationTimestamp(DtnTime(tsAlive), 1), Lifetime: 1000}
+	pb.Destination, pb.SourceNode, pb.ReportTo = symEID("", 1, false), symEID("", 1, false), symEID("", 1, false)
+	payload := make([]byte, 600)
+	copy(payload[250:], verif.Bytes("pl", 12)) // symbolic bytes around the first 256-byte boundary
+	cbs := []CanonicalBlock{
+		{BlockNumber: 2, CRCType: CRC32, Value: NewGenericExtensionBlock(make([]byte, 150), 200)},
+		{BlockNumber: 3, BlockControlFlags: ReplicateBlock, CRCType: CRC32, Value: &HopCountBlock{Limit: 9, Count: verif.U8("hc")}},
+		{BlockNumber: 1, CRCType: CRC32, Value: NewPayloadBlock(payload)},
+	}
+	b := MustNewBundle(pb, cbs)
+	verif.Assume(b.CheckValid() == nil)
+	orig := serialised(b)
+	base := len(orig) - 600 // encoded size without payload data
+	shards := verif.Param("shards", 4)
+	shard := verif.Param("shard", 0)
+	k := verif.Size("k", 0, verif.Param("per", 32)-1)
+	mtu := base + 180 + shard + shards*k
+	fs, err := b.Fragment(mtu)
+	if err != nil {
+		verif.Reach("refused")
+		return
+	}
+	verif.Reach("fragmented")
+	verif.Assert(len(fs) >= 2, "a 600-byte payload does not fit these limits")
+	checkFragments(b, fs, mtu, orig)
+	r, rerr := ReassembleFragments(append([]Bundle{}, fs...))
+	verif.Assert(rerr == nil && bytes.Equal(serialised(r), orig), "reassembly is byte-identical")
 	verif.Reach("end")
 }
